@@ -367,7 +367,7 @@ func init() {
 		sa.report(r, "X15")
 	})
 	register("X18", func(w *World, r *Report, tier string) {
-		sa := runEntries(w, r, totalityEntries(w, r, [][3]string{{"uePolicyContainer", "UePolDeliverySerDecode", ""}, {"uePolicyContainer", "UEPolicySectionManagementList.UnmarshalBinary", "recv"}, {"uePolicyContainer", "UEPolicySectionManagementResult.UnmarshalBinary", "recv"}}))
+		sa := runEntries(w, r, totalityEntries(w, r, [][3]string{{"uePolicyContainer", "UePolDeliverySer.UePolDeliverySerDecode", "recv"}, {"uePolicyContainer", "UEPolicySectionManagementList.UnmarshalBinary", "recv"}, {"uePolicyContainer", "UEPolicySectionManagementResult.UnmarshalBinary", "recv"}}))
 		sa.report(r, "X18")
 	})
 	register("X16", func(w *World, r *Report, tier string) {
